@@ -249,6 +249,35 @@ func (c *Ctx) role0(name string) *ssa.Function {
 				}
 			}
 		}
+		// the list renderer moved to a helper type (a context object holding File and writer): any
+		// function with a *Group parameter or receiver, results (bool | int, error), that reaches an
+		// interface call of Code.render within two static calls — other than Group.render itself
+		for _, f := range c.allFuncs(c.Jen) {
+			if f.Parent() != nil || f == c.method("Group", c.renderName()) || f.Signature.Results().Len() != 2 {
+				continue
+			}
+			if b, ok := f.Signature.Results().At(0).Type().Underlying().(*types.Basic); !ok || (b.Kind() != types.Bool && b.Kind() != types.Int) {
+				continue
+			}
+			hasGroup := false
+			for _, prm := range f.Params {
+				if types.TypeString(prm.Type(), shortQual) == "*jen.Group" {
+					hasGroup = true
+				}
+			}
+			if !hasGroup {
+				continue
+			}
+			reaches := len(c.FA(f).invokes(c.renderName())) > 0
+			for _, cal := range c.calleesWithin(f, 2) {
+				if len(c.FA(cal).invokes(c.renderName())) > 0 {
+					reaches = true
+				}
+			}
+			if reaches {
+				return f
+			}
+		}
 	case "isNullItems":
 		if gf := c.method("Group", c.nullName()); gf != nil {
 			for _, cal := range c.staticCallees(gf) {
